@@ -44,6 +44,7 @@ type Model struct {
 	StopUnits   []*ssa.Function // stop cores and the exported methods that reach one
 	DemoteUnits []*ssa.Function // non-stop claim-clear units
 
+	curSpec       map[string]bool // specialisation of the function whose facts are being computed
 	termBoundMemo map[*ssa.Function]int
 	callers map[*ssa.Function][]CallSite // static call / go / defer sites inside the library
 	guards  map[*ssa.BasicBlock][]Lit
